@@ -344,6 +344,13 @@ def sampleStep (sample : Nat) (th : Rat) (buf : Option (List (List Rat))) (gener
   let values := values.set (generation % sample) fitness
   (some values, if generation < sample - 1 then false else checkThreshold values th)
 
+/-- the `position` up to which the store is drained: `p` = number of trailing samples not older than `earliest`
+    (`rev().position(time < earliest)`), with the three `match` arms of the code -/
+def periodPosition (vals : List (Nat × List Rat)) (earliest : Nat) : Nat :=
+  match vals.reverse.findIdx? (fun p => decide (p.1 < earliest)) with
+  | some p => if p < 2 ∧ vals.length < 3 then 0 else if p < 2 then vals.length - 2 else vals.length - p
+  | none => 0
+
 /-- period mode of `update_and_check`; `period` and the times in milliseconds; `decimate` stands for the random
     thinning applied when more than 1000 samples are stored (shuffle, keep every tenth, sort by time) -/
 def periodStep (decimate : List (Nat × List Rat) → List (Nat × List Rat)) (period : Nat) (th : Rat)
@@ -352,11 +359,7 @@ def periodStep (decimate : List (Nat × List Rat) → List (Nat × List Rat)) (p
   let vals := if vals.length > 1000 then decimate vals else vals
   if period > elapsed ∨ vals.length < 2 then (vals, false)
   else
-    let earliest := elapsed - period
-    let position := match vals.reverse.findIdx? (fun p => decide (p.1 < earliest)) with
-      | some p => if p < 2 ∧ vals.length < 3 then 0 else if p < 2 then vals.length - 2 else vals.length - p
-      | none => 0
-    let vals := vals.drop position
+    let vals := vals.drop (periodPosition vals (elapsed - period))
     (vals, checkThreshold (vals.map (·.2)) th)
 
 /-- the `(is_global, selection_phase)` filter of `MinVariation::is_termination` -/
